@@ -159,6 +159,30 @@ class Inst(Node):
         return Func(cls.ev, owner.mod, fn, self_obj=self)
 
 
+class GenList(list):
+    """what a generator function of the evaluated code returns: its items, plus the one-shot discipline of a Python generator -- the evaluated code
+    can iterate it once; a second iteration (the same generator object stored in two places, a shared node printed twice) sees nothing, as it
+    would at run time.  The analyses' own traversals use it as a plain list and do not consume it."""
+    reuse_log: List[str] = []
+
+    def __init__(self, items, origin=""):
+        super().__init__(items)
+        self.used = False
+        self.origin = origin
+
+
+def consume(v):
+    """iterate a value on behalf of the evaluated code"""
+    if isinstance(v, GenList):
+        if v.used:
+            if v.origin not in GenList.reuse_log:
+                GenList.reuse_log.append(v.origin)
+            return []
+        v.used = True
+        return list(v)
+    return v
+
+
 class _Return(Exception):
     def __init__(self, v):
         self.v = v
@@ -170,8 +194,9 @@ class ModuleProxy:
 
 
 class Func:
-    def __init__(self, ev, mod, node, self_obj=None):
+    def __init__(self, ev, mod, node, self_obj=None, closure=None):
         self.ev, self.mod, self.node, self.self_obj = ev, mod, node, self_obj
+        self.closure = closure            # the defining function's variables, for a nested def
 
     def __call__(self, *args, **kwargs):
         return self.ev.call(self, args, kwargs)
@@ -237,7 +262,7 @@ class MiniEval:
         self.depth += 1
         if self.depth > 40:
             raise core.AnalysisError("construction code recursion too deep")
-        env: Dict[str, Any] = {}
+        env: Dict[str, Any] = dict(f.closure) if getattr(f, "closure", None) else {}
         params = [a.arg for a in fn.args.args]
         if f.self_obj is not None:
             env[params[0]] = f.self_obj
@@ -268,7 +293,14 @@ class MiniEval:
         missing = [p for p in params + [a.arg for a in fn.args.kwonlyargs] if p not in env]
         if missing:
             raise core.AnalysisError(f"{f.mod}.{fn.name}: missing argument(s) {missing}")
-        is_gen = any(isinstance(n, (ast.Yield, ast.YieldFrom)) for n in ast.walk(fn))
+        def _own_yield(node):
+            for ch in ast.iter_child_nodes(node):
+                if isinstance(ch, (ast.FunctionDef, ast.AsyncFunctionDef, ast.Lambda, ast.ClassDef)):
+                    continue
+                if isinstance(ch, (ast.Yield, ast.YieldFrom)) or _own_yield(ch):
+                    return True
+            return False
+        is_gen = _own_yield(fn)
         out: List[Any] = []
         try:
             self.block(fn.body, env, f.mod, out)
@@ -276,7 +308,7 @@ class MiniEval:
         except _Return as r:
             ret = r.v
         self.depth -= 1
-        return out if is_gen else ret
+        return GenList(out, f"{f.mod}.{fn.name}") if is_gen else ret
 
     # -------- statements
     def block(self, stmts, env, mod, out):
@@ -289,7 +321,7 @@ class MiniEval:
                 if isinstance(v, ast.Yield):
                     out.append(self.ev(v.value, env, mod) if v.value is not None else None)
                 elif isinstance(v, ast.YieldFrom):
-                    out.extend(list(self.ev(v.value, env, mod)))
+                    out.extend(list(consume(self.ev(v.value, env, mod))))
                 elif isinstance(v, ast.Constant):
                     pass
                 else:
@@ -308,13 +340,15 @@ class MiniEval:
             elif isinstance(s, ast.If):
                 self.block(s.body if self.truth(self.ev(s.test, env, mod)) else s.orelse, env, mod, out)
             elif isinstance(s, ast.For):
-                for item in list(self.ev(s.iter, env, mod)):
+                for item in list(consume(self.ev(s.iter, env, mod))):
                     self.assign(s.target, item, env, mod)
                     self.block(s.body, env, mod, out)
             elif isinstance(s, ast.Return):
                 raise _Return(self.ev(s.value, env, mod) if s.value is not None else None)
             elif isinstance(s, ast.Pass):
                 pass
+            elif isinstance(s, ast.FunctionDef):
+                env[s.name] = Func(self, mod, s, closure=env)        # a nested def sees (the current state of) its definer's variables
             elif isinstance(s, ast.Try):
                 # handlers only re-raise with a better message in this code base: the body decides
                 self.block(s.body, env, mod, out)
@@ -398,7 +432,7 @@ class MiniEval:
         args = []
         for a in n.args:
             if isinstance(a, ast.Starred):
-                args.extend(list(self.ev(a.value, env, mod)))
+                args.extend(list(consume(self.ev(a.value, env, mod))))
             else:
                 args.append(self.ev(a, env, mod))
         kwargs = {}
@@ -409,6 +443,10 @@ class MiniEval:
                 kwargs[k.arg] = self.ev(k.value, env, mod)
         if isinstance(f, Func):
             return f.ev.call(f, args, kwargs)        # a method of an object built by another evaluator keeps that evaluator's stand-ins
+        # a builtin / a method of a builtin container or string that is handed a generator iterates it
+        owner = getattr(f, "__self__", None)
+        if any(f is b for b in BUILTINS.values()) or isinstance(owner, (str, list, dict, set, tuple)):
+            args = [consume(a) for a in args]
         try:
             return f(*args, **kwargs)
         except core.AnalysisError:
@@ -521,7 +559,7 @@ class MiniEval:
             acc.append(elt(env))
             return
         g = gens[0]
-        for item in list(self.ev(g.iter, env, mod)):
+        for item in list(consume(self.ev(g.iter, env, mod))):
             e2 = dict(env)
             self.assign(g.target, item, e2, mod)
             if all(self.truth(self.ev(c, e2, mod)) for c in g.ifs):
